@@ -4,6 +4,7 @@ import ScyllaVerif.Model.Replicas
 import ScyllaVerif.Model.Plan
 import ScyllaVerif.Model.Sharding
 import ScyllaVerif.Model.Routing
+import ScyllaVerif.Model.PlanRefresh
 import ScyllaVerif.Drive.Topology
 /-! Line-protocol driver for C05 (default load-balancing policy, `Plan`).
 
@@ -14,6 +15,14 @@ Case: `plan[.<tag>] <topology> <keyspace strategies> <config> <request> <samples
 with different shards).  A request on keyspace k0 is routed by the tablet covering its token (no replicas when none
 does - the ring is NOT consulted; model: C12's `pickT` / `fallbackT` of `Model/Routing.lean`), a request on another or
 an unknown keyspace or without table by the ring as in `plan`;
+`hplan[.<tag>] <n> (<mode> <topology>)×n <keyspace strategies> <config> <request> <samples>`: the plans are computed on
+the state a HISTORY of metadata refreshes produced (`runHistory`: C04's model of `calculate_new_topology`, composed with
+the plan model by `PlanRefresh.clusterOf`) - first mode `n`, then `r` / `t` (rejecting filter), `R` / `T` (accepting), `F` / `G` (full / topology-only refresh with
+a per-peer verdict: flag `a` = accepted, the rejected peers carry `d`); no sharders;
+`lplan[.<tag>] <topology> <keyspace strategies> <config> <request> <samples>`: as `plan` with LATENCY AWARENESS on (outside
+the property's quantifier; an observation): flag `p` = penalised; the model is `planOf (pick on the cluster where the
+penalised nodes count as not alive) (wrapLA pen (fallback))` (`Model/PlanRefresh.lean`), the line carries `dups=<k>` =
+the number of sampled plans that name their first node twice;
 the flags word of a peer contains `d` = disabled by the host filter, `x` = no usable connection, and optionally
 `s<nr_shards>.<msb_ignore>` = the node's sharder; `samples` > 0).
 ```
@@ -43,6 +52,8 @@ namespace ScyllaVerif.Drive.C05
 open ScyllaVerif.Util ScyllaVerif.Ring ScyllaVerif.Replicas ScyllaVerif.Plan ScyllaVerif.Drive.Topology
 open ScyllaVerif.Sharding (shardOfImpl)
 open ScyllaVerif.Routing (SRep pickT fallbackT planT replicaGroupsT rqNoToken tokenAware)
+open ScyllaVerif.Refresh (CState MPeer KNode)
+open ScyllaVerif.PlanRefresh (clusterOf withDown wrapLA)
 
 def parsePref (s : String) : Option Pref :=
   if s == "a" then some .any
@@ -164,34 +175,44 @@ def unshuffle {α : Type} [BEq α] : List α → List α → List Nat
 structure RecState where
   seen : List Obs
   rest : List Obs
+  restPen : List Obs
   shufs : List (List Nat)
   rots : List Nat
 
 /-- Reconstructs the random choices of `fallback` from the observed targets (`seen0` = targets to treat as already
 seen: the picked target of a plan).  `groupsAt[k]` = the model's eight groups under rotation offset `k` and no shuffle.
+`pen` = the penalised host ids of a latency-aware policy (`[]` otherwise): the observation is then the `wrap`ped fallback -
+the not-penalised targets of all groups first, the penalised ones behind - and each group's block is read from both parts.
 The result is only a proposal: the caller runs the model with it and compares. -/
-def recoverFb (groupsAt : List (List (List Target))) (lwt : Bool) (obs : List Obs) (seen0 : List Obs) : RhoFb :=
+def recoverFb (groupsAt : List (List (List Target))) (lwt : Bool) (pen : List Nat) (obs : List Obs) (seen0 : List Obs) :
+    RhoFb :=
   let base := groupsAt.headD []
+  let isPen : Obs → Bool := fun o => pen.contains o.1
   let step := fun (st : RecState) (i : Nat) =>
     let gb := base.getD i []
     let exp := dedupO (gb.map obsOf) st.seen
-    let block := st.rest.take exp.length
-    let rest := st.rest.drop exp.length
+    let nP := (exp.filter isPen).length
+    let nF := exp.length - nP
+    let blockF := st.rest.take nF
+    let blockP := st.restPen.take nP
+    let rest := st.rest.drop nF
+    let restPen := st.restPen.drop nP
     let seen := st.seen ++ exp
     if i < 3 then
       let shuf : List Nat :=
         if lwt then []
         else
-          let blockT := block.filterMap (fun o => gb.find? (fun t => obsOf t == o))
+          let blockT := (blockF ++ blockP).filterMap (fun o => gb.find? (fun t => obsOf t == o))
           let others := blockT.foldl (fun acc t => acc.erase t) gb
           unshuffle gb (others ++ blockT)
-      { seen := seen, rest := rest, shufs := st.shufs ++ [shuf], rots := st.rots }
+      { seen := seen, rest := rest, restPen := restPen, shufs := st.shufs ++ [shuf], rots := st.rots }
     else if i < 6 then
       let k := ((List.range groupsAt.length).find? (fun k =>
-        dedupO (((groupsAt.getD k []).getD i []).map obsOf) st.seen == block)).getD 0
-      { seen := seen, rest := rest, shufs := st.shufs, rots := st.rots ++ [k] }
-    else { seen := seen, rest := rest, shufs := st.shufs, rots := st.rots }
-  let st := (List.range 8).foldl step ⟨seen0, obs, [], []⟩
+        let d := dedupO (((groupsAt.getD k []).getD i []).map obsOf) st.seen
+        d.filter (fun o => !isPen o) == blockF && d.filter isPen == blockP)).getD 0
+      { seen := seen, rest := rest, restPen := restPen, shufs := st.shufs, rots := st.rots ++ [k] }
+    else { seen := seen, rest := rest, restPen := restPen, shufs := st.shufs, rots := st.rots }
+  let st := (List.range 8).foldl step ⟨seen0, obs.filter (fun o => !isPen o), obs.filter isPen, [], []⟩
   ⟨st.shufs.getD 0 [], st.shufs.getD 1 [], st.shufs.getD 2 [], st.rots.getD 0 0, st.rots.getD 1 0, st.rots.getD 2 0⟩
 
 /-- Do the model's groups leave no room for a random choice?  (see the module comment) -/
@@ -245,41 +266,55 @@ structure PolicyM where
   groups : RhoFb → List (List Target)
 
 /-- Prints the model's line for one case and judges the implementation's samples (see the module comment). -/
-def check (ps : List (Peer × String)) (pm : PolicyM) (lwt shuffle : Bool) (n nS : Nat) (impl : String) : String :=
+def check (ps : List (Peer × String)) (pm : PolicyM) (lwt shuffle : Bool) (n nS : Nat) (impl : String)
+    (pen : List Nat := []) (latencyAware : Bool := false) : String :=
   let ρp0 : RhoPick := ⟨0, 0, 0, 0, 0, 0, 0, 0, 0, 0, 0⟩
   let ρf0 : RhoFb := ⟨[], [], [], 0, 0, 0⟩
   -- what does not depend on the random choices, from running the model's state machine at the zero choices
   let fb0 := pm.fallback ρf0
   let plan0 := planRun (pm.pick ρp0) fb0 (fb0.length + 3) .created
   if plan0 != planOf (pm.pick ρp0) fb0 then "MODEL-INCONSISTENT planRun/planOf" else
-  let setIds := sortNat (plan0.map (·.1.id))
+  let setIds := sortNat ((if latencyAware then fb0 else plan0).map (·.1.id))
   let reps := (fb0.filter (·.2.isSome)).map obsOf
   let lwtS := if lwt then showObsList reps else "x"
   let groupsAt := (List.range n).map (fun k => pm.groups ⟨[], [], [], k, k, k⟩)
   let replicaObs : List Obs := (((groupsAt.headD []).take 3).flatten).map obsOf
   let ws := words impl
   let implDet := ((ws.find? (·.startsWith "det=")).getD "det=?")
-  let detS := if modelDeterministic (groupsAt.headD []) lwt then "det=" ++ natList (plan0.map (·.1.id)) else implDet
-  let pre := s!"set={natList setIds} rep={showObsList (sortObs reps)} lwt={lwtS} {detS} |"
+  let detS := if !latencyAware && modelDeterministic (groupsAt.headD []) lwt then "det=" ++ natList (plan0.map (·.1.id))
+    else implDet
+  -- latency-aware cases: the number of sampled plans that name their first node again (an observation, not a failure)
+  let dupCount : Nat := ((ws.dropWhile (· != "|")).drop 1).foldl (fun acc w =>
+    match (w.splitOn "/L").getLast? with
+    | some l => match parsePlanObs l with
+      | some (h :: t) => if t.any (fun o => o.1 == h.1) then acc + 1 else acc
+      | _ => acc
+    | none => acc) 0
+  let dupS := if latencyAware then s!" dups={dupCount}" else ""
+  let pre := s!"set={natList setIds} rep={showObsList (sortObs reps)} lwt={lwtS} {detS}{dupS} |"
   -- the possible answers of `pick`, each with random choices that produce it
   let picks : List (RhoPick × Option Target) :=
     ((List.range n).flatMap (fun i => (List.range n).map (fun j =>
       let ρ : RhoPick := ⟨i, j, i, j, i, j, i, i, i, i, i⟩
       (ρ, pm.pick ρ)))).foldl
       (fun acc x => if acc.any (fun y => y.2 == x.2) then acc else acc ++ [x]) []
-  let fbOk (f : List Obs) : Bool := (pm.fallback (recoverFb groupsAt lwt f [])).map obsOf == f
+  let fbOk (f : List Obs) : Bool := (pm.fallback (recoverFb groupsAt lwt pen f [])).map obsOf == f
+  let fbObs0 : List Obs := fb0.map obsOf
   let planOk (l : List (Nat × Nat)) : Bool :=
     -- a planned target is "supplied by the policy" iff it is one of the replica groups' targets
     let asObs : List Obs := l.map (fun o => if replicaObs.contains (o.1, some o.2) then (o.1, some o.2) else (o.1, none))
     picks.any (fun (ρp, pk) =>
-      let headOk := match pk, asObs with
-        | some t, h :: _ => h == obsOf t
+      let headOk := match pk, l with
+        | some t, h :: _ => h.1 == t.1.id && (match t.2 with | some s => s == h.2 | none => true)
         | some _, [] => false
         | none, _ => true
       headOk &&
         (let ρf := match pk with
-           | some t => recoverFb groupsAt lwt (asObs.drop 1) [obsOf t]
-           | none => recoverFb groupsAt lwt asObs []
+           | some t =>
+             -- the literal filter of `Plan::next` removes the picked target from the fallback only if it is in it literally
+             -- (always, for a policy without latency awareness)
+             recoverFb groupsAt lwt pen (asObs.drop 1) (if fbObs0.contains (obsOf t) then [obsOf t] else [])
+           | none => recoverFb groupsAt lwt pen asObs []
          let fb := pm.fallback ρf
          let r := planRun (pm.pick ρp) fb (fb.length + 3) .created
          r == planOf (pm.pick ρp) fb && matchPlan ps r l))
@@ -300,7 +335,7 @@ def check (ps : List (Peer × String)) (pm : PolicyM) (lwt shuffle : Bool) (n nS
       let fixedPart (sm : Sample) : Option Obs × List Obs × List (Nat × Nat) :=
         (sm.pick.filter (·.2.isSome), sm.fb.filter (·.2.isSome),
           sm.plan.filter (fun o => replicaObs.contains (o.1, some o.2)))
-      let shuffleOk := shuffle || match samples with
+      let shuffleOk := shuffle || latencyAware || match samples with
         | [] => true
         | s0 :: rest => rest.all (fun sm => fixedPart sm == fixedPart s0)
       match verdicts.find? (·.isSome) with
@@ -355,9 +390,57 @@ def tabletV (reps : List SRep) : Option Nat → List SRep := fun dc =>
   | none => reps
   | some d => reps.filter (fun r => r.1.dc == some d)
 
+/-- The state after a history `(<mode> <topology>)*` through C04's model of `calculate_new_topology`
+(`Model/Refresh.lean`): mode `n` = `ClusterState::new`, `r` / `t` = full / topology-only refresh with a rejecting host
+filter (the hooks clear `is_enabled` first), `R` / `T` = with an accepting one; after every step the hooks impose
+`is_enabled` from the flags (`d` = disabled).  Address of a peer = its position in the list.  Returns the state and the
+peers (with flags) of the last step. -/
+def runHistory (ks : List Strategy) : List String → Option CState → List (Peer × String) →
+    Option (CState × List (Peer × String))
+  | [], some st, last => some (st, last)
+  | mode :: topo :: rest, st, _ =>
+    match parseTopologyEx topo with
+    | none => none
+    | some tx =>
+      if tx.any (fun p => p.2.contains 's') then none else
+      -- `F` / `G`: a host filter with one verdict per peer (flag `a` = accepted; the rejected ones carry `d`)
+      let filtered := mode == "F" || mode == "G"
+      if filtered && tx.any (fun p => p.2.contains 'a' == p.2.contains 'd') then none else
+      let peers : List MPeer := (tx.zipIdx).map (fun (p, i) =>
+        ⟨p.1.node, i, p.1.tokens, if filtered then p.2.contains 'a' else (mode == "R" || mode == "T")⟩)
+      let fetched : ScyllaVerif.Refresh.Fetched := (ks.zipIdx).map (fun (s, i) => (i, some s))
+      let ids := (tx.filter (fun p => !p.2.contains 'd')).map (·.1.node.id)
+      let next : Option CState :=
+        match mode, st with
+        | "n", none => some (CState.fresh peers fetched)
+        | "r", some st => some ((st.setEnabled []).refresh peers fetched)
+        | "t", some st => some ((st.setEnabled []).refreshTopology peers)
+        | "R", some st => some (st.refresh peers fetched)
+        | "T", some st => some (st.refreshTopology peers)
+        | "F", some st => some (st.refresh peers fetched)
+        | "G", some st => some (st.refreshTopology peers)
+        | _, _ => none
+      match next with
+      | none => none
+      | some st' => runHistory ks rest (some (st'.setEnabled ids)) tx
+  | _, _, _ => none
+
 def run (case impl : String) : String :=
   match words case with
   | [head, topo, kss, cfg, req, nSamples] =>
+    if head == "lplan" || head.startsWith "lplan." then
+      -- latency awareness ON: flag `p` = the harness reports 100 ms for the node, 1 ms for the others; a node is then
+      -- penalised (threshold 2) iff it has `p` and some peer has not (the minimum average is then 1 ms)
+      match parseTopologyEx topo, parseStrategies kss, parseConfig cfg, parseRequest req, nSamples.toNat? with
+      | some ps, some ks, some (cfg, shuffle), some rq, some nS =>
+        if nS == 0 || ps.any (fun p => (parseSharder p.2).isNone) then "bad-case" else
+        let cl := mkCluster ps ks rq.token
+        let pen := if ps.all (fun p => p.2.contains 'p') then [] else (ps.filter (fun p => p.2.contains 'p')).map (·.1.node.id)
+        let clP := withDown cl (cl.down ++ pen)
+        check ps ⟨pick clP cfg rq, fun ρ => wrapLA pen (fallback cl cfg rq ρ), fallbackGroups cl cfg rq⟩ rq.routeAsLwt
+          shuffle ((allNodes cl).length + 1) nS impl pen true
+      | _, _, _, _, _ => "bad-case"
+    else
     if !(head == "plan" || head.startsWith "plan.") then "bad-case" else
     match parseTopologyEx topo, parseStrategies kss, parseConfig cfg, parseRequest req, nSamples.toNat? with
     | some ps, some ks, some (cfg, shuffle), some rq, some nS =>
@@ -389,6 +472,32 @@ def run (case impl : String) : String :=
         check ps ⟨pickT cl cfg rq V, fallbackT cl cfg rq V, groups⟩ rq.routeAsLwt shuffle
           ((allNodes cl).length + reps.length + 1) nS impl
     | _, _, _, _, _ => "bad-case"
+  | head :: nSteps :: rest =>
+    if !(head == "hplan" || head.startsWith "hplan.") then "bad-case" else
+    match nSteps.toNat? with
+    | none => "bad-case"
+    | some n =>
+      if n == 0 || rest.length != 2 * n + 4 then "bad-case" else
+      match rest.drop (2 * n) with
+      | [kss, cfg, req, nSamples] =>
+        match parseStrategies kss, parseConfig cfg, parseRequest req, nSamples.toNat? with
+        | some ks, some (cfg, shuffle), some rq, some nS =>
+          if nS == 0 then "bad-case" else
+          match runHistory ks (rest.take (2 * n)) none [] with
+          | none => "bad-case"
+          | some (st, lastPs) =>
+            let down := (lastPs.filter (fun p => p.2.contains 'x')).map (·.1.node.id)
+            -- the cluster the policy reads in the state the history produced ...
+            let cl := clusterOf st down (fun _ => 0)
+            -- ... must be the cluster built from scratch from the last metadata (Props.C05Refresh.cluster_after_history)
+            let fresh := mkCluster lastPs ks rq.token
+            let ρf0 : RhoFb := ⟨[], [], [], 0, 0, 0⟩
+            if fallback cl cfg rq ρf0 != fallback fresh cfg rq ρf0 || cl.disabled != fresh.disabled then
+              "MODEL-INCONSISTENT history/fresh" else
+            check lastPs ⟨pick cl cfg rq, fallback cl cfg rq, fallbackGroups cl cfg rq⟩ rq.routeAsLwt shuffle
+              ((allNodes cl).length + 1) nS impl
+        | _, _, _, _ => "bad-case"
+      | _ => "bad-case"
   | _ => "bad-case"
 
 end ScyllaVerif.Drive.C05
